@@ -1119,7 +1119,7 @@ class Interp:
                     raise_from(node, kind, env, self.client.on_event_exc(ev, cs, kind), w)
                 for rv in self.client.callback_results(cat, ev) or [None]:
                     env2 = dict(env)
-                    env2[("$r", id(call))] = rv if rv is not None else KILL
+                    env2[("$r", id(call))] = rv if rv is not None else ("cbret", cat)  # an opaque value that remembers whose result it is
                     go(node, env2, cs_ok, self._witness(w, ("callback", cat, f"{fi.module.relpath}:{node.lineno}", rv)))
                 continue
             # lib / unknown
@@ -1168,6 +1168,7 @@ class Interp:
         of = node.info.get("of")
         fi = cfg.func
         category: str | None = None
+        more_cats: list[str] = []
         real = True
         aw: ast.Await = node.ast
         if of is not None:
@@ -1187,12 +1188,20 @@ class Interp:
                                 if t.kind == "callback":
                                     category = t.category
         else:
-            t = self.prog.type_of(aw.value, fi)
-            for a in t:
-                if a[0] == "ext" and a[1].startswith("cbret:"):
-                    category = a[1][6:]
-            if category is None:
-                category = self._await_category_by_defuse(cfg, aw.value)
+            # what is awaited: first by value (the result of a user callable carries its role through parameters and
+            # helpers - exact per calling context), then by declared type, then by def-use in this function
+            val = self.ev(aw.value, env, cfg)
+            if val is not None and val[0] == "cbret":
+                category = val[1]
+            else:
+                t = self.prog.type_of(aw.value, fi)
+                cats = sorted({a[1][6:] for a in t if a[0] == "ext" and a[1].startswith("cbret:")})
+                if len(cats) == 1:
+                    category = cats[0]
+                elif len(cats) > 1:
+                    more_cats = cats  # several roles reach this await: the faults of each of them (never an arbitrary one)
+                if category is None and not more_cats:
+                    category = self._await_category_by_defuse(cfg, aw.value)
         ev = Event("await", node, cfg, self, env, stack, category=category, real=real)
         env2 = dict(env)
         if of is not None:
@@ -1202,7 +1211,12 @@ class Interp:
             go(node, env2, cs, w)
             return
         cs_ok = self.client.on_event(ev, cs)
-        for kind in self.client.await_kinds(category, ev):
+        kinds: list[str] = []
+        for c in (more_cats or [category]):
+            for kind in self.client.await_kinds(c, ev):
+                if kind not in kinds:
+                    kinds.append(kind)
+        for kind in kinds:
             raise_from(node, kind, env, self.client.on_event_exc(ev, cs, kind), w)
         go(node, env2, cs_ok, w)
 
